@@ -17,7 +17,7 @@ def main():
     from core import Broken, log
     try:
         if a.replay:
-            rc = mod.replay(a.replay) if hasattr(mod, 'replay') else __import__('engine').generic_replay(a.replay)
+            rc = mod.replay(a.replay) if hasattr(mod, 'replay') else __import__('engine').generic_replay(a.replay, mod)
         else:
             rc = mod.run(a.tier, seed)
     except Broken as e:
